@@ -93,6 +93,9 @@ func genLeaf(r *coqfmt.Rng) reflect.Type {
 			}
 		}
 	case x < 15:
+		if r.Chance(1, 5) {
+			return coqfmt.Pick(r, rty.DurContainers()) // DEFINED container types: substituted like the unnamed ones
+		}
 		if r.Chance(1, 4) {
 			// composite map values (the duration substitution has to convert them entry by entry)
 			e := coqfmt.Pick(r, leafTypes)
